@@ -25,6 +25,7 @@ func HiddenName(dir, name string) bool {
 //	root TOC entry                                   never
 //	D/.wh.X                                          0/0 character device D/X, unless D carries a real X
 //	D/.wh..wh..opq                                   D is opaque
+//	a real device entry, 0/0 character device incl.  as it is (mode, owner, device number of the tar)
 //
 // A synthesised whiteout whose own name is a hidden name (".wh..wh.foo" -> ".wh.foo",
 // ".wh..prefetch.landmark" in the root) is marked Optional: the statement both asks for
@@ -59,7 +60,7 @@ func lowerDir(src *gen.Node, dir string) *Node {
 		if _, real := d.Kids[x]; real {
 			continue
 		}
-		d.Kids[x] = &Node{Type: tar.TypeChar, Optional: HiddenName(dir, x)}
+		d.Kids[x] = &Node{Type: tar.TypeChar, Synth: true, Optional: HiddenName(dir, x)}
 	}
 	return d
 }
